@@ -17,6 +17,9 @@ func init() {
 	register(&Rule{ID: "FLAG-5", Doc: "UploadStream.upload is called with final=true by Close only: Write and Suspend flush full chunks and keep the remainder in the buffer (a partial chunk in the middle of a file makes every later offset wrong and Resume reject the upload)", Run: func(c *Ctx, r *Reporter) { ruleFlag4(c, r, 1) }})
 	register(&Rule{ID: "ARG-1", Doc: "no two arguments are crossed: at every call of a repository function, when two parameters of the same type are named a and b, the arguments are not (a field or parameter named b, a field or parameter named a)", Run: ruleArg1})
 	register(&Rule{ID: "SIG-4", Doc: "a closed signal channel is marked: every close(stream.signal) is preceded, in the same critical section, by stream.closed = true for the same stream, so that no later Stream.Close or broadcast sends on the closed channel", Run: ruleSig4})
+	register(&Rule{ID: "UPD-7", Doc: "what is recorded is what was written: in every function registered as a field update operator, a Changes.Record(path, x) that is dominated by a bsonkit.Put(doc, path, y, ...) for the same path records y itself (or reads the value back with bsonkit.Get) - never the previous value of the field, which is what min/max/rename have in hand as well", Run: ruleUpd7})
+	register(&Rule{ID: "WIN-9", Doc: "distinct results are always sorted and de-duplicated: in bsonkit.Collect a return that is not dominated by the sort is reachable only over an edge on which the distinct parameter is false (no other shortcut, e.g. on the number of documents, may skip the sort: one document can contribute many array elements)", Run: ruleWin9})
+	register(&Rule{ID: "TXN-6", Doc: "a per-item write error does not abort the transaction: the callbacks handed to useTransaction return as their error only what a Transaction method returned as its error, never the Error field of a Result (useTransaction aborts on a callback error, which would throw away the items of the batch that did succeed)", Run: ruleTxn6})
 	register(&Rule{ID: "GFS-8", Doc: "bucket configuration is fixed at construction: the fields files, chunks, markers and chunkSize of Bucket are written by NewBucket only (a per-upload option that is stored in the bucket changes every later upload and breaks the resume of suspended ones)", Run: ruleGfs8})
 }
 
@@ -292,4 +295,290 @@ func ruleGfs8(c *Ctx, r *Reporter) {
 		})
 	}
 	r.guard(n, 4, "writes of Bucket configuration fields")
+}
+
+// ---- UPD-7 -------------------------------------------------------------------------------
+
+func ruleUpd7(c *Ctx, r *Reporter) {
+	regs := readRegistries(c)
+	reg := regs["FieldUpdateOperators"]
+	recF := c.lookupFunc(pkgMongokit, "Changes.Record")
+	putF := c.lookupFunc(pkgBsonkit, "Put")
+	getF := c.lookupFunc(pkgBsonkit, "Get")
+	if reg == nil || recF == nil || putF == nil {
+		r.bad("anchor:FieldUpdateOperators/Changes.Record/bsonkit.Put", "-", "not found")
+		return
+	}
+	var names []string
+	for n := range reg {
+		names = append(names, n)
+	}
+	sortStrings(names)
+	seenFn := map[*ssa.Function]bool{}
+	n := 0
+	for _, name := range names {
+		fn := reg[name]
+		if seenFn[fn] {
+			continue
+		}
+		seenFn[fn] = true
+		for _, g := range withClosures(fn) {
+			var puts, recs []*ssa.Call
+			allInstrs(g, func(in ssa.Instruction) {
+				call, ok := in.(*ssa.Call)
+				if !ok {
+					return
+				}
+				switch calleeObj(&call.Call) {
+				case recF:
+					if len(call.Call.Args) == 3 {
+						recs = append(recs, call)
+					}
+				case putF:
+					if len(call.Call.Args) == 4 {
+						puts = append(puts, call)
+					}
+				}
+			})
+			for _, rc := range recs {
+				// the nearest dominating Put of the same path
+				var best *ssa.Call
+				for _, p := range puts {
+					if !(p.Call.Args[1] == rc.Call.Args[1] || sameSource(p.Call.Args[1], rc.Call.Args[1])) {
+						continue
+					}
+					dom := p.Block() != rc.Block() && p.Block().Dominates(rc.Block())
+					if p.Block() == rc.Block() {
+						for _, y := range p.Block().Instrs {
+							if y == ssa.Instruction(p) {
+								dom = true
+								break
+							}
+							if y == ssa.Instruction(rc) {
+								break
+							}
+						}
+					}
+					if dom && (best == nil || best.Block().Dominates(p.Block())) {
+						best = p
+					}
+				}
+				if best == nil {
+					continue
+				}
+				n++
+				rv, pv := stripValue(rc.Call.Args[2]), stripValue(best.Call.Args[2])
+				same := rv == pv || sameSource(rv, pv)
+				if !same {
+					if gc, ok := rv.(*ssa.Call); ok && getF != nil && calleeObj(&gc.Call) == getF {
+						// read back from the document - after the write only
+						if gc.Block() != best.Block() && best.Block().Dominates(gc.Block()) {
+							same = true
+						} else if gc.Block() == best.Block() {
+							for _, y := range gc.Block().Instrs {
+								if y == ssa.Instruction(best) {
+									same = true
+									break
+								}
+								if y == ssa.Instruction(gc) {
+									break
+								}
+							}
+						}
+					}
+				}
+				r.check(same, fmt.Sprintf("update operator %s (%s):recorded value", name, closureNeutral(g.Name())), c.pos(rc.Pos()), "the value recorded for the path is the value that was put there", fmt.Sprintf("Changes.Record is given %s while bsonkit.Put at %s wrote %s: the update event describes a value the document does not hold", rv.Name(), c.pos(best.Pos()), pv.Name()))
+			}
+		}
+	}
+	r.guard(n, 8, "Changes.Record calls dominated by a Put of the same path")
+}
+
+// ---- WIN-9 -------------------------------------------------------------------------------
+
+func ruleWin9(c *Ctx, r *Reporter) {
+	fn := c.lookupSSA(pkgBsonkit, "Collect")
+	if fn == nil || len(fn.Params) < 6 {
+		r.bad("anchor:bsonkit.Collect", "-", "not found")
+		return
+	}
+	var distinct *ssa.Parameter
+	for _, p := range fn.Params {
+		if p.Name() == "distinct" {
+			distinct = p
+		}
+	}
+	if distinct == nil {
+		distinct = fn.Params[len(fn.Params)-1]
+	}
+	var isSortD func(in ssa.Instruction, depth int) bool
+	isSort := func(in ssa.Instruction) bool { return isSortD(in, 0) }
+	isSortD = func(in ssa.Instruction, depth int) bool {
+		call, ok := in.(*ssa.Call)
+		if !ok {
+			return false
+		}
+		// the sort may live in a private helper that every call of it runs through (sort + de-duplicate extracted)
+		if h := privateHelperOf(&call.Call); h != nil && depth < 2 && len(h.Blocks) > 0 {
+			for _, hin := range h.Blocks[0].Instrs {
+				if isSortD(hin, depth+1) {
+					return true
+				}
+			}
+			found := false
+			allInstrs(h, func(hin ssa.Instruction) {
+				if !found && isSortD(hin, depth+1) && hin.Block().Dominates(hin.Block()) {
+					// only sorts on every path of the helper count: the sort's block dominates all returns
+					all := true
+					for _, ret := range returnsOf(h) {
+						if ret.Block() != hin.Block() && !hin.Block().Dominates(ret.Block()) {
+							all = false
+						}
+					}
+					found = all
+				}
+			})
+			return found
+		}
+		f := calleeObj(&call.Call)
+		if f == nil || f.Pkg() == nil {
+			return false
+		}
+		if f.Pkg().Path() == "sort" || f.Pkg().Path() == "slices" && strings.HasPrefix(f.Name(), "Sort") {
+			return true
+		}
+		return f.Pkg().Path() == pkgBsonkit && f.Name() == "Sort"
+	}
+	hasSort := false
+	allInstrs(fn, func(in ssa.Instruction) {
+		if isSort(in) {
+			hasSort = true
+		}
+	})
+	if !hasSort {
+		r.bad("Collect:sort", c.pos(fn.Pos()), "Collect does not sort its result")
+		return
+	}
+	// blocks reachable from the entry without taking a distinct==false edge and without passing the sort
+	reach := map[*ssa.BasicBlock]bool{}
+	var work []*ssa.BasicBlock
+	if len(fn.Blocks) > 0 {
+		work = append(work, fn.Blocks[0])
+	}
+	n := 0
+	for len(work) > 0 {
+		b := work[len(work)-1]
+		work = work[:len(work)-1]
+		if reach[b] {
+			continue
+		}
+		reach[b] = true
+		sorted := false
+		for _, in := range b.Instrs {
+			if isSort(in) {
+				sorted = true
+				break
+			}
+			if ret, ok := in.(*ssa.Return); ok {
+				n++
+				r.bad("Collect:return without sort", c.pos(ret.Pos()), "this return is reached with distinct == true and without sorting: values of a distinct query come back unordered and repeated")
+			}
+		}
+		if sorted {
+			continue
+		}
+		succs := b.Succs
+		if iff, ok := b.Instrs[len(b.Instrs)-1].(*ssa.If); ok && len(b.Succs) == 2 {
+			cond := iff.Cond
+			neg := false
+			if u, ok := cond.(*ssa.UnOp); ok && u.Op == token.NOT {
+				cond, neg = u.X, true
+			}
+			if cond == ssa.Value(distinct) {
+				if neg {
+					succs = []*ssa.BasicBlock{b.Succs[1]} // !distinct is false: distinct holds
+				} else {
+					succs = []*ssa.BasicBlock{b.Succs[0]}
+				}
+			}
+		}
+		work = append(work, succs...)
+	}
+	if n == 0 {
+		r.ok("Collect:return without sort", c.pos(fn.Pos()), "every return that skips the sort lies behind a distinct == false edge")
+	}
+}
+
+// ---- TXN-6 -------------------------------------------------------------------------------
+
+func ruleTxn6(c *Ctx, r *Reporter) {
+	use := c.lookupFunc(pkgLungo, "useTransaction")
+	errF := c.field(pkgLungo, "Result", "Error")
+	if use == nil || errF == nil {
+		r.bad("anchor:useTransaction/Result.Error", "-", "not found")
+		return
+	}
+	n := 0
+	for _, fn := range c.repoFuncs() {
+		allInstrs(fn, func(in ssa.Instruction) {
+			ci, ok := in.(ssa.CallInstruction)
+			if !ok || calleeObj(ci.Common()) != use || len(ci.Common().Args) < 4 {
+				return
+			}
+			var cb *ssa.Function
+			switch x := ci.Common().Args[3].(type) {
+			case *ssa.MakeClosure:
+				cb, _ = x.Fn.(*ssa.Function)
+			case *ssa.Function:
+				cb = x
+			}
+			if cb == nil || len(cb.Blocks) == 0 {
+				return
+			}
+			n++
+			bad := ""
+			for _, ret := range returnsOf(cb) {
+				if len(ret.Results) != 2 {
+					continue
+				}
+				seen := map[ssa.Value]bool{}
+				var fromResultError func(v ssa.Value, d int) bool
+				fromResultError = func(v ssa.Value, d int) bool {
+					if seen[v] || d > 8 {
+						return false
+					}
+					seen[v] = true
+					switch x := v.(type) {
+					case *ssa.Phi:
+						for _, e := range x.Edges {
+							if fromResultError(e, d+1) {
+								return true
+							}
+						}
+					case *ssa.UnOp:
+						if x.Op == token.MUL {
+							if _, ok := fieldAddrOf(x.X, errF); ok {
+								return true
+							}
+							return fromResultError(unspill(x), d+1) && unspill(x) != ssa.Value(x)
+						}
+					case *ssa.Field:
+						if st, ok := x.X.Type().Underlying().(*types.Struct); ok && x.Field < st.NumFields() && st.Field(x.Field) == errF {
+							return true
+						}
+					case *ssa.MakeInterface:
+						return fromResultError(x.X, d+1)
+					case *ssa.ChangeInterface:
+						return fromResultError(x.X, d+1)
+					}
+					return false
+				}
+				if fromResultError(retVal(ret, 1), 0) {
+					bad = c.pos(ret.Pos())
+				}
+			}
+			r.check(bad == "", "useTransaction callback in "+closureNeutral(plainFuncName(fn)), c.pos(in.Pos()), "the callback's error is never a Result.Error", "the callback returns a Result's per-item Error as its own error (at "+bad+"): useTransaction aborts, and the items of the batch that succeeded are lost although the call reports them")
+		})
+	}
+	r.guard(n, 20, "useTransaction call sites with a function literal")
 }
